@@ -100,7 +100,7 @@ CLAIMS = {
         "functions can destroy, bit-copy, move out, disarm or contains unsafe code (all others are safe code over T); in "
         "those, every move-out is paired with the size decrease and every size increase with the slot write, slots are "
         "written only when already counted, every public entry returns balanced; the owners (buffer Drop, IntoIter, "
-        "Drain::drop, From<[T;M]>) destroy what they hold. Also: drop_range returns without destroying only for an empty range (DESTROY1), the drain's un-yielded views are bounded by iter, never by range (DRNVIEW1), no iterator type overrides a provided method that moves or skips elements (ITERSET1), what Drain::next/next_back hand out is read(i) for exactly the index the range iterator just produced (DRAINIT1), and the two pieces handed to the destructors (Drain views, drop_range) are one contiguous piece only where the guard facts entail lower < upper strictly and a split only where they entail upper <= lower (VIEWCMP1). The geometry of the drain's back-fill is decided as equalities of linear forms over the Drain's fields (BACKFILL2): destination starts at start + range.start, source at start + range.end, source + count = buf_size, restored size = destination + count, and each iteration advances both cursors and reduces the counter by exactly the copied count; and the typestate 'size is 0 while a Drain exists' (DRN1 a-c,f). REMOVE2: on every feasible path through remove the bulk copies form the chain start+index+1 -> start+size (mod N), each shifting by one slot, starting right behind the slot read out (or, mirrored, the head chain with start advanced by one); FROMARR2: From<[T;M]> destroys [0, M-size) and bit-copies [M-size, M) — complementary blocks — and counts exactly the copied elements. Not decided: element order inside one bulk copy (memmove is trusted); chunk lengths inside CircularSlicePtr.",
+        "Drain::drop, From<[T;M]>) destroy what they hold. Also: drop_range returns without destroying only for an empty range (DESTROY1), the drain's un-yielded views are bounded by iter, never by range (DRNVIEW1), no iterator type overrides a provided method that moves or skips elements (ITERSET1), what Drain::next/next_back hand out is read(i) for exactly the index the range iterator just produced (DRAINIT1), and the two pieces handed to the destructors (Drain views, drop_range) are one contiguous piece only where the guard facts entail lower < upper strictly and a split only where they entail upper <= lower (VIEWCMP1). The geometry of the drain's back-fill is decided as equalities of linear forms over the Drain's fields (BACKFILL2): destination starts at start + range.start, source at start + range.end, source + count = buf_size, restored size = destination + count, and each iteration advances both cursors and reduces the counter by exactly the copied count; and the typestate 'size is 0 while a Drain exists' (DRN1 a-c,f). REMOVE2: on every feasible path through remove the bulk copies form the chain start+index+1 -> start+size (mod N), each shifting by one slot, starting right behind the slot read out (or, mirrored, the head chain with start advanced by one); FROMARR2: From<[T;M]> destroys [0, M-size) and bit-copies [M-size, M) — complementary blocks — and counts exactly the copied elements. Not decided: element order inside one bulk copy (memmove is trusted); chunk lengths inside CircularSlicePtr. DRN1 g: the struct invariant of Drain that the other rules assume (range.start <= iter.start <= iter.end <= range.end <= buf_size <= N) is established where the Drain is built, from translate_range_bounds' inferred postcondition. VIEW2 also decides that a view answers (empty, empty) only over edges establishing that its interval is empty.",
         note="Tables in rules/tables.py are reviewed by hand against the source; trusted: Rust's guarantees for safe "
         "code, rustc MIR. Range arithmetic not decided.",
         ref="DESIGN.md §5 C03",
@@ -117,7 +117,7 @@ CLAIMS = {
         "(REINT1); the header is shrunk before drop_range runs destructors and not written afterwards (PS1); the observers "
         "(eq/ord/hash/Debug) read the contents only through len/as_slices/iter and feed std's algorithms element by element "
         "(OBS1/ORD1/HASH1/DBG1), and the positional accessors answer from the logical position only (NONE1/DERIV1) — the "
-        "'equal contents are indistinguishable' clause. Also: a physical slot position add_mod(start,i,N) used to index/offset/swap storage needs i<size (ACC2b); index-kind inference: physical positions and logical indices/lengths are never compared nor substituted for each other, and the backing array is sliced only by physical positions (KIND1); DRNVIEW1; BACKFILL2 (the back-fill of Drain::drop copies exactly the live tail [range.end, buf_size) onto the hole and restores size = range.start + moved, as linear-form equalities) and DRN1 a-c,f (the header claims nothing while a Drain, which may be leaked, exists); REMOVE2 (remove's copies close exactly the gap: a chain start+index+1 -> start+size modulo N shifting by one). Not decided: bounds arithmetic inside the slice views; two-run non-interference.",
+        "'equal contents are indistinguishable' clause. Also: a physical slot position add_mod(start,i,N) used to index/offset/swap storage needs i<size (ACC2b); index-kind inference: physical positions and logical indices/lengths are never compared nor substituted for each other, and the backing array is sliced only by physical positions (KIND1); DRNVIEW1; BACKFILL2 (the back-fill of Drain::drop copies exactly the live tail [range.end, buf_size) onto the hole and restores size = range.start + moved, as linear-form equalities) and DRN1 a-c,f (the header claims nothing while a Drain, which may be leaked, exists); REMOVE2 (remove's copies close exactly the gap: a chain start+index+1 -> start+size modulo N shifting by one). Not decided: bounds arithmetic inside the slice views; two-run non-interference. DRN1 g (the Drain invariant is established at construction) and the empty-answer clause of VIEW2 (a view is (empty, empty) only where N == 0 or its logical length is zero, judged per incoming path).",
         note="One INV1 store (extend_from_slice size + other.len()) is listed as an assumption, not decided. Drain::read "
         "is a named exception (unsafe fn with a value-level contract).",
         ref="DESIGN.md §5 C04",
@@ -133,7 +133,7 @@ CLAIMS = {
         "index produced by std's Range iterator and len/size_hint are that iterator's (DRAINIT1); no modulus/index by "
         "capacity zero reachable from drain/Drain (MOD1); every RangeBounds form translated as documented (RANGE1). Also DRNVIEW1 (views bounded by iter), VIEWCMP1 (contiguity test), KIND1 on the Drain functions, ITERSET1 for Drain. BACKFILL2: the back-fill's geometry (hole = [range.start, range.end), moved block = [range.end, buf_size), size = range.start + moved, cursors and counter stepped by the copied count) as equalities of linear forms. Not "
         "decided: the chunk length arithmetic inside CircularSlicePtr, order preservation (values). SUB1/RIDX1 restricted to the drain code (thorough "
-        "tier: also on the debug-assertion build, whose assertion arithmetic is code too).",
+        "tier: also on the debug-assertion build, whose assertion arithmetic is code too). DRN1 g: the ordering range.start <= iter.start <= iter.end <= range.end <= buf_size <= N is entailed where the Drain is built (a reversed range cannot reach the back-fill); the un-yielded views answer (empty, empty) only where N == 0, buf_size == 0 or iter is empty; BACKFILL2 reads the counter as itself or as bound - counter, and the loop is left only where nothing is left to move.",
         note="Which slots the un-yielded views cover is decided by VIEW2 + DRNVIEW1 (pieces of the circular interval add_mod(start, iter.start, N) -> "
         "add_mod(start, iter.end, N)). Assumed (reviewed) struct invariant of Drain, an axiom of the guard reasoning: range.start <= iter.start <= iter.end <= "
         "range.end <= buf_size <= N. Trusted: std's Range<usize> iterator and RangeBounds impls. ",
@@ -149,7 +149,7 @@ CLAIMS = {
         "plus the C04 obligations (ACC1, ACC2, INV1, WHOLE1: a whole-array fill only where start == 0 is established, not assumed "
         "from what an earlier — possibly leaked — operation left behind) under which a buffer of size 0 touches no slot and keeps "
         "working. The implication "
-        "premises => property is a three-line argument in DESIGN.md, hence level other.",
+        "premises => property is a three-line argument in DESIGN.md, hence level other. DRN1 g (struct invariant established at construction).",
         note="Relies on C04's rules; the implication itself is not machine-checked.",
         ref="DESIGN.md §5 C10",
     ),
@@ -322,7 +322,7 @@ CLAIMS = {
         "compare only sub-slices of the contents (BASE1); in buffer == buffer every arm's compared pieces partition both "
         "sequences — each segment whole, or as the complementary pair [..k],[k..] with the same k, in order (BASE2) — and "
         "every split point is a difference of first-segment lengths only (BASE3). Not decided: that the split points have "
-        "the right *values* (explicitly partial).",
+        "the right *values* (explicitly partial). BASE2 identifies the arm of each slice comparison by how the facts order the two first-segment lengths there (match on cmp or if/else chain alike); HASH1 accepts the elements as one `a.iter().chain(b)` over the two pieces of one as_slices() as well as iter().",
         note="BASE2/BASE3 are structural necessary conditions of the segment alignment; its arithmetic itself (the "
         "historically buggy part) is value-level.",
         ref="DESIGN.md §5 C13",
@@ -337,7 +337,7 @@ CLAIMS = {
         "both and returns that sum with no other mutation, fill_buf returns front iff it is non-empty else back, consume "
         "drains ..min(amt,len) and Drain::drop, which completes it, runs droppers -> back-fill -> restore of size on every path "
         "(DRN1), and no zero-capacity modulus/index is reachable from the five entries. Not decided: which "
-        "bytes extend_from_slice keeps (C01), non-underflow of len-count, non-emptiness of fill_buf for a non-empty buffer.",
+        "bytes extend_from_slice keeps (C01), non-underflow of len-count, non-emptiness of fill_buf for a non-empty buffer. IO4 is decided on facts: consume mutates only by one drain(..E) and E is min(amt, len), spelled with min or chosen by a branch whose edges order amt and len accordingly.",
         note="Shape rules on small methods; trusted: std's <&[u8] as Read>::read.",
         ref="DESIGN.md §5 C14",
     ),
